@@ -277,6 +277,8 @@ class PVLParser(object):
                     parsing = True
                 else:
                     return m
+            except LexerError:
+                raise
             except Exception:
                 pass
 
@@ -476,6 +478,8 @@ class PVLParser(object):
 
         try:
             self.parse_around_equals(tokens)
+        except LexerError:
+            raise
         except (ParseError, ValueError):  # No equals statement, which is fine.
             self.parse_statement_delimiter(tokens)
             return None
@@ -772,6 +776,9 @@ class PVLParser(object):
         self.parse_WSC_until(None, tokens)
         try:
             return self.parse_units(value, tokens)
+        except LexerError:
+            # Not just "there are no units here", but a real problem.
+            raise
         except (ValueError, StopIteration):
             return value
 
